@@ -375,8 +375,8 @@ func acceptedOptionsKnownToGet(p *Prog, r *Report, R string) {
 func ipcPermissionsOnEveryBind(p *Prog, r *Report, R string) {
 	r.Describe(R, "transport/ipc: from every successful net.ListenUnix in Listen (first attempt, and the retry after a stale socket file was removed) every path to the installation of the listener passes the application of the owner/group and permission options: an accepted option takes effect whichever bind succeeded")
 	ln := p.Func("transport/ipc", "listener", "Listen")
-	if ln == nil {
-		// not a unix build configuration
+	if ln == nil || p.Conf.GOOS == "windows" {
+		// not a unix build configuration (named pipes have no socket file to own)
 		r.OK(R, "transport/ipc.(listener).Listen", "-", "no unix ipc listener in this build configuration")
 		return
 	}
